@@ -2432,6 +2432,29 @@ fn emit_strip(out: &mut Out, rng: &mut Rng, vals: &[u64], matrix: bool, subset: 
         nlist(&elems), blist8(&extra), reader.pos, b(eq), b(ans));
     out.stat(&format!("c19.strip.{}", subset));
     out.case("strip", term, format!("{{\"values\":{:?},\"matrix\":{},\"subset\":{},\"eq\":{},\"answers\":{}}}", &vals[..std::cmp::min(vals.len(), 40)], matrix, subset, eq, ans), !vals.is_empty());
+    // the same file as the payload of an optional structure: Option<T>::load
+    if !elems.is_empty() {
+        let mut welems: Vec<u64> = vec![elems.len() as u64];
+        welems.extend_from_slice(&elems);
+        let mut stream = from_elems(&welems);
+        stream.extend_from_slice(&extra);
+        let mut reader = CountingReader::new(&stream, *rng.pick(&[0usize, 0, 3, 8]));
+        let (eq, ans) = if matrix {
+            match catch(|| Option::<WaveletMatrix>::load(&mut reader)) {
+                Res::Ok(Ok(Some(x))) => (x == wm, same_wm(&x, &wm, &values)),
+                _ => (false, false),
+            }
+        } else {
+            match catch(|| Option::<WMCore>::load(&mut reader)) {
+                Res::Ok(Ok(Some(x))) => (x == core, same_core(&x, &core, &values)),
+                _ => (false, false),
+            }
+        };
+        let term = format!("CStripWO {} {} {} {} {} {} {} {} {} {}", PATH, b(DBG), if matrix { "WMat" } else { "WCore" }, nlist(vals), subset,
+            nlist(&welems), blist8(&extra), reader.pos, b(eq), b(ans));
+        out.stat(&format!("c19.strip_in_option.{}", subset));
+        out.case("strip_option", term, format!("{{\"values\":{:?},\"matrix\":{},\"subset\":{},\"option\":true,\"eq\":{},\"answers\":{}}}", &vals[..std::cmp::min(vals.len(), 40)], matrix, subset, eq, ans), !vals.is_empty());
+    }
 }
 
 // a SparseVector file whose embedded high bitvector carries only the select / select_zero supports of `subset`
@@ -2464,6 +2487,23 @@ fn emit_strip_sparse(out: &mut Out, rng: &mut Rng, it: &SpItem, subset: u64) {
     let term = format!("CStripS {} {} {} {} {} {} {}", sp_head(it), subset & 6, nlist(&elems), blist8(&extra), reader.pos, b(eq), b(ans));
     out.stat(&format!("c19.strip_sparse.{}", subset & 6));
     out.case("strip_sparse", term, format!("{{\"len\":{},\"multi\":{},\"values\":{:?},\"subset\":{},\"eq\":{},\"answers\":{}}}",
+        it.len, it.multi, &it.vals[..std::cmp::min(it.vals.len(), 40)], subset & 6, eq, ans), !it.vals.is_empty());
+    // the same file as the payload of an optional structure
+    let mut welems: Vec<u64> = vec![elems.len() as u64];
+    welems.extend_from_slice(&elems);
+    let mut stream = from_elems(&welems);
+    stream.extend_from_slice(&extra);
+    let mut reader = CountingReader::new(&stream, *rng.pick(&[0usize, 0, 3, 8]));
+    let (eq, ans) = match catch(|| Option::<SparseVector>::load(&mut reader).map(|x| match x {
+        Some(x) => (x == it.g.v, catch(|| (it.g.answers)(&x, &it.g.v))),
+        None => (false, Res::Ok(false)),
+    })) {
+        Res::Ok(Ok((e, Res::Ok(a)))) => (e, a),
+        _ => (false, false),
+    };
+    let term = format!("CStripSO {} {} {} {} {} {} {}", sp_head(it), subset & 6, nlist(&welems), blist8(&extra), reader.pos, b(eq), b(ans));
+    out.stat(&format!("c19.strip_sparse_in_option.{}", subset & 6));
+    out.case("strip_sparse_option", term, format!("{{\"len\":{},\"multi\":{},\"values\":{:?},\"subset\":{},\"option\":true,\"eq\":{},\"answers\":{}}}",
         it.len, it.multi, &it.vals[..std::cmp::min(it.vals.len(), 40)], subset & 6, eq, ans), !it.vals.is_empty());
 }
 
